@@ -3,7 +3,7 @@ import Qentem.Proofs.TmplText
 import Qentem.Proofs.TmplParseSegs
 import Qentem.Proofs.TmplRenderSegs
 import Qentem.Proofs.TmplBlockIf
-import Qentem.Proofs.TmplLoop
+import Qentem.Proofs.TmplGenRender
 /-!
 # C02 — rendering a well-formed template yields the documented expansion
 
@@ -235,23 +235,26 @@ example {R : Type} : treeX.ok ∧ treeX.pathOk (rdX (R := R)) ∧ treeX.caseOk (
       intro v hv; simp [itemsVars, operandVars] at hv; subst hv
       exact pathX
 
-/-- stage 6 of `RenderParsePrint`, PARTIAL: one `<loop set="S" value="V">body</loop>` between two
-segment runs (stage 3 segments, at top level).  The exact class:
-* `S` (the set path): free of `{ < } " >`, the documented path shape, 1..235 units (the value name's
-  offset must fit the tag's 8-bit field: known finding name-of-256-units-or-more);
+/-- stage 6 of `RenderParsePrint`, PARTIAL: one `<loop set="S" value="V">body</loop>` or
+`<loop value="V">body</loop>` (`S = []`: the loop runs over the root) between two segment runs
+(stage 3 segments, at top level).  The exact class:
+* `S` (the set path): free of `{ < } " >`, when present of the documented path shape, at most 235
+  units (the value name's offset must fit the tag's 8-bit field: known finding
+  name-of-256-units-or-more);
 * `V` (the value name): free of `{ < } " >`, at most 255 units;
 * `body`: text, `{var:path}` and `{raw:path}` segments (`okB`: no `{math:}`), paths of 1..255 units
   free of `{ < }` with the documented shape, and a path that STARTS with `V` is `V` followed by
   `[key]…` (`BodyPathOk`; the code compares only the first `|V|` units of a name with the value
   name, the document the whole name);
 * the content is below the 32-bit limit.
-The value is ARBITRARY: `S` may resolve to an array (items without keys), an object (items with
-their keys; an unresolved `{var:V…}` prints the escaped key), anything else or nothing (the loop
-prints nothing); undefined members are skipped.  Proof: exact `next` at `<loop` / `</loop>`, exact
-`parseLoopAttributes` on the printed attributes (`pla_print`), `stepVar` under the loop chain
+The value is ARBITRARY: the collection (`collOf`: the value of `S`, or the root) may be an array
+(items without keys), an object (items with their keys; an unresolved `{var:V…}` prints the escaped
+key), anything else or nothing (the loop prints nothing); undefined members are skipped.  Proof
+(Proofs/TmplLoop.lean): exact `next` at `<loop` / `</loop>`, exact `parseLoopAttributes` on the
+printed attributes (`pla_print`, `pla_print0`), `stepLoop_gen`, `stepVar` under the loop chain
 (`checkLoopVariable_one`), `loopIter` against `loopArr` / `loopObj` (`loopIter_ents`).
-Not covered (see notes/design-tmpl.md): `<loop value=…>` without `set` (the root), `{math:}` /
-blocks / loops inside the body, loops inside blocks, `sort=` / `group=`. -/
+Not covered (see notes/design-tmpl.md): `{math:}` / blocks / loops inside the body, loops inside
+blocks, `sort=` / `group=`. -/
 theorem render_parse_print_loop_partial {R : Type} [RealLike R] (cx : RCtx R) (sx : SpecCtx R)
     (cfg : ScanCfg R) (segs0 : List Seg) (S V : List Nat) (body segs1 : List Seg)
     (hg : cx.guardIndexRead = true) (same : SameCtx cx sx) (hrn : cfg.readNum = cx.readNum)
@@ -259,27 +262,19 @@ theorem render_parse_print_loop_partial {R : Type} [RealLike R] (cx : RCtx R) (s
     (h0 : ∀ s ∈ segs0, s.ok) (hp0 : ∀ s ∈ segs0, s.pathOk cfg.readNum)
     (h1 : ∀ s ∈ segs1, s.ok) (hp1 : ∀ s ∈ segs1, s.pathOk cfg.readNum)
     (hb : ∀ s ∈ body, s.okB) (hpb : ∀ s ∈ body, s.pathB V)
-    (hS : plainL S) (hS34 : ∀ x ∈ S, x ≠ 34) (hSgt : ∀ x ∈ S, x ≠ 62) (hSp : PathOk S) (hS236 : S.length < 236)
+    (hS : plainL S) (hS34 : ∀ x ∈ S, x ≠ 34) (hSgt : ∀ x ∈ S, x ≠ 62) (hSp : S ≠ [] → PathOk S)
+    (hS236 : S.length < 236)
     (hV : plainL V) (hV34 : ∀ x ∈ V, x ≠ 34) (hVgt : ∀ x ∈ V, x ≠ 62) (hV256 : V.length < 256)
     (hn : cx.content.length + 16 < 4294967296) (fuel fuel' : Nat) :
     (parse cfg cx.content).bind (fun tags => renderTop cx tags
-        ((loopEnts cx S).length + nTags body + nTags segs1 + 5 + fuel + nTags segs0)) =
+        ((entsO (collOf cx S)).length + nTags body + nTags segs1 + 5 + fuel + nTags segs0)) =
       .ok (expand sx (loopTpl segs0 S V body segs1)
-        (segs0.length + segs1.length + (loopEnts cx S).length + body.length + 4 + fuel')) := by
-  have hSne : S ≠ [] := by
-    obtain ⟨name, keys, rfl, hne, _, _⟩ := hSp
-    intro h; exact hne (List.append_eq_nil_iff.mp h).1
-  rw [printLoopT_eq segs0 S V body segs1 hSne] at hc
-  have hn' := hn
-  rw [hc] at hn'
-  have hp := Qentem.Tmpl.parse_loopT cfg segs0 S V body segs1 h0 h1 hb hS hS34 hV hV34 hSgt hVgt hS236 hV256 hn'
-  rw [← hc] at hp
-  rw [hp]
-  simp only [Except.bind]
-  rw [renderTop_loopT cx cfg hg hrn segs0 S V body segs1 hc h0 hp0 h1 hp1 hSp hb hpb fuel, expand, same.eq,
-    expand_loopT cx segs0 S V body segs1 hSne fuel']
+        (segs0.length + segs1.length + (entsO (collOf cx S)).length + body.length + 4 + fuel')) := by
+  rw [expand, same.eq]
+  exact loop_partial cx cfg segs0 S V body segs1 hg hrn hc h0 hp0 h1 hp1 hb hpb hS hS34 hSgt hSp hS236 hV hV34 hVgt
+    hV256 hn fuel fuel'
 
-/-- non-vacuity: `<loop set="a" value="v">{var:v}</loop>` -/
+/-- non-vacuity: `<loop set="a" value="v">{var:v}</loop>` (and, with `S = []`, `<loop value="v">{var:v}</loop>`) -/
 example {R : Type} (rn : List Nat → Option (Num R)) :
     (∀ s ∈ [Seg.var [118]], s.okB) ∧ (∀ s ∈ [Seg.var [118]], s.pathB [118]) ∧ PathOk [97] ∧ plainL [97] ∧
       plainL [118] := by
@@ -292,6 +287,116 @@ example {R : Type} (rn : List Nat → Option (Num R)) :
   · exact ⟨[97], [], by simp [brk], by simp, (by intro x hx; simp at hx; subst hx; decide), (by intro k hk; cases hk)⟩
   · intro x hx; simp at hx; subst hx; unfold plainU; decide
   · intro x hx; simp at hx; subst hx; unfold plainU; decide
+
+/-- stage 7 of `RenderParsePrint`: TREES of segment runs, `<if>`/`<elseif>`/`<else />` chains and
+`<loop [set="S"] value="V">` loops, nested in any order to any depth (`GTs`): loops inside loops, ifs
+inside loops, loops inside if branches; loop variables in `{var:}`, `{raw:}`, `{math:}` operands,
+`case=` operands and in the `set=` of an inner loop; shadowing of an outer value name by an inner
+one.  For EVERY value, number reader, formatter and escape switch: parse + render = the documented
+expansion.  The exact class:
+* `ok`: texts and paths free of `{ < }`, paths 1..255 units; `{math:}` texts `MathOk`; case texts
+  free of `"`; loop attributes `HdrOk` (`S`, `V` free of `{ < } " >`, `|S| < 236`, `|V| < 256`);
+* `pathV`: every `{var:}`/`{raw:}` path, every operand path the scanner finds in a `{math:}` / case
+  text and every non-empty `set=` path has the documented shape and — the one semantic side
+  condition — a path that STARTS with the value name of an enclosing loop IS that loop's variable
+  (its name part is the value name): the code compares only the first `|V|` units
+  (`checkLoopVariable`), the document the whole name; `{math:}` / case texts shorter than 65536
+  units (the expression scanner keeps an operand's length in 16 bits);
+* `caseV`: every case text of a chain with more than one branch is an expression (see the
+  observations in notes/design-tmpl.md);
+* the content is below the 32-bit limit.
+Proof (Proofs/TmplGen.lean, TmplGenRender.lean): the parser lemmas of the earlier stages for a state
+with any loop chain; `checkLoopVariable` = first (innermost) enclosing loop whose value name is a
+prefix (`checkLoopVariable_D`, `findV`); `stepLoop_hdr` under a parent chain; `parse_gt`/`parse_gts`/
+`parse_gtail` by mutual recursion over the tree, parametric in chain and stack (`Level` = stack
+depth); `getValue_env` (`getValue`/`loopKeyText` under the enclosing loops = `resolve` under their
+bindings: both pick the first entry whose name is the path's name); `evalExprs_env` and `pvD_scan`
+(relocation of scanned expressions under a chain); `loopIter_gen` (one body rendering per defined
+item, the items of the enclosing loops untouched at their levels: `ItemsOk`); `render_gt` /
+`render_gts` / `render_gtail`; `expand_gt` on the reference side.  Render fuel `rneedGTs` and
+reference fuel `eneedGTs` depend on the value (one unit per loop item, summed over nested loops).
+Not covered: `{svar:}`, inline `{if}`, `sort=`/`group=`. -/
+theorem render_parse_print_loops {R : Type} [RealLike R] (cx : RCtx R) (sx : SpecCtx R)
+    (cfg : ScanCfg R) (bs : GTs) (hg : cx.guardIndexRead = true) (same : SameCtx cx sx)
+    (hrn : cfg.readNum = cx.readNum)
+    (hc : cx.content = printList (gtsTpl bs)) (hok : bs.ok) (hpath : bs.pathV cfg.readNum [])
+    (hcase : bs.caseV cfg.readNum)
+    (hn : cx.content.length + 16 < 4294967296) (fuel fuel' : Nat) :
+    (parse cfg cx.content).bind (fun tags => renderTop cx tags (rneedGTs cx [] bs + rcostGTs bs + fuel)) =
+      .ok (expand sx (gtsTpl bs) (eneedGTs cx [] bs + fuel')) := by
+  rw [printGTs_eq] at hc
+  have hn' := hn
+  rw [hc] at hn'
+  have hp := Qentem.Tmpl.parse_gtree cfg bs hok hn'
+  rw [← hc] at hp
+  rw [hp]
+  simp only [Except.bind]
+  rw [show rneedGTs cx [] bs + rcostGTs bs + fuel = (rneedGTs cx [] bs + fuel) + rcostGTs bs by omega,
+    renderTop_gtree cx cfg hg hrn bs hc (by omega) hok hpath hcase _ (by omega), expand, same.eq,
+    expand_gts cx bs [] _ (by omega)]
+
+/-- non-vacuity of the class of `render_parse_print_loops`:
+`<loop set="a" value="v"><if case="{var:v[x]} == 1">{math:{var:v[x]}+1}<else /><loop set="v[l]" value="w">{var:w}{var:v[n]}</loop></if></loop>` -/
+def caseL : List Nat := [123, 118, 97, 114, 58, 118, 91, 120, 93, 125, 32, 61, 61, 32, 49]
+def mathL : List Nat := [123, 118, 97, 114, 58, 118, 91, 120, 93, 125, 43, 49]
+def treeL : GTs :=
+  .cons (.loop [97] [118]
+    (.cons (.ifc caseL (.cons (.segs [.math mathL]) .nil)
+      (.els (.cons (.loop [118, 91, 108, 93] [119] (.cons (.segs [.var [119], .var [118, 91, 110, 93]]) .nil)) .nil))) .nil)) .nil
+theorem scanCL {R : Type} : parseTop ({ readNum := rdX } : ScanCfg R) (caseL ++ [34]) 0 caseL.length =
+    .ok [(.var ⟨5, 4, 0, 0⟩, .equal), (.num (.nat 1), .noOp)] := by
+  with_unfolding_all rfl
+theorem scanML {R : Type} : parseTop ({ readNum := rdX } : ScanCfg R) (mathL ++ [125]) 0 mathL.length =
+    .ok [(.var ⟨5, 4, 0, 0⟩, .add), (.num (.nat 1), .noOp)] := by
+  with_unfolding_all rfl
+theorem pathVx (k : Nat) (hk : k ≠ 91 ∧ k ≠ 93) (Vs : List (List Nat)) (hVs : ∀ V ∈ Vs, V = [118] ∨ V = [119]) :
+    PathOkV Vs [118, 91, k, 93] := by
+  refine ⟨[118], [[k]], by simp [brk], by simp, (by intro x hx; simp at hx; subst hx; decide),
+    (by intro q hq; simp at hq; subst hq; intro x hx; simp at hx; subst hx; exact hk), ?_⟩
+  intro V hV hp
+  rcases hVs V hV with h | h
+  · exact h.symm
+  · subst h; simp [List.isPrefixOf] at hp
+theorem plain1 (x : Nat) (h : x ≠ 123 ∧ x ≠ 60 ∧ x ≠ 125) : plainL [x] := by
+  intro y hy; simp at hy; subst hy; exact h
+example {R : Type} : treeL.ok ∧ treeL.pathV (rdX (R := R)) [] ∧ treeL.caseV (rdX (R := R)) := by
+  have hp4 : ∀ k, k ≠ 123 ∧ k ≠ 60 ∧ k ≠ 125 → plainL [118, 91, k, 93] := by
+    intro k hk x hx; simp at hx; rcases hx with h | h | h | h <;> subst h <;> first | exact hk | (unfold plainU; decide)
+  refine ⟨?_, ?_, ?_⟩
+  · simp only [treeL, GTs.ok, GT.ok, GTail.ok, and_true]
+    refine ⟨⟨plain1 97 (by decide), by decide, by decide, by decide, plain1 118 (by decide), by decide, by decide, by decide⟩,
+      by decide, ?_, ⟨hp4 108 (by decide), by decide, by decide, by decide, plain1 119 (by decide), by decide, by decide, by decide⟩, ?_⟩
+    · intro s hs; simp at hs; subst hs
+      exact ⟨[([], [118, 91, 120, 93])], [43, 49], by simp [mathL, printMP],
+        by intro x hx; simp at hx; rcases hx with h | h <;> subst h <;> (unfold plainU; decide),
+        by intro tp htp; simp at htp; subst htp; exact ⟨(by intro x hx; cases hx), hp4 120 (by decide)⟩⟩
+    · intro s hs; simp at hs
+      rcases hs with h | h <;> subst h
+      · exact ⟨plain1 119 (by decide), by simp, by simp⟩
+      · exact ⟨hp4 110 (by decide), by simp, by simp⟩
+  · simp only [treeL, GTs.pathV, GT.pathV, GTail.pathV, and_true]
+    refine ⟨fun _ => ⟨[97], [], by simp [brk], by simp, (by intro x hx; simp at hx; subst hx; decide),
+      (by intro k hk; cases hk), (by intro V hV; cases hV)⟩, ⟨?_, by decide⟩, ?_, fun _ => pathVx 108 (by decide) _ (by intro V hV; simp at hV; exact Or.inl hV), ?_⟩
+    · intro items h; rw [scanCL] at h; cases h
+      intro v hv; simp [itemsVars, operandVars] at hv; subst hv
+      exact pathVx 120 (by decide) _ (by intro V hV; simp at hV; exact Or.inl hV)
+    · intro s hs; simp at hs; subst hs
+      refine ⟨?_, by decide⟩
+      intro items h; rw [scanML] at h; cases h
+      intro v hv; simp [itemsVars, operandVars] at hv; subst hv
+      exact pathVx 120 (by decide) _ (by intro V hV; simp at hV; exact Or.inl hV)
+    · intro s hs; simp at hs
+      rcases hs with h | h <;> subst h
+      · refine ⟨[119], [], by simp [brk], by simp, (by intro x hx; simp at hx; subst hx; decide), (by intro k hk; cases hk), ?_⟩
+        intro V hV hp
+        simp at hV
+        rcases hV with h | h <;> subst h
+        · rfl
+        · simp [List.isPrefixOf] at hp
+      · exact pathVx 110 (by decide) _ (by intro V hV; simp at hV; rcases hV with h | h; exact Or.inr h; exact Or.inl h)
+  · simp only [treeL, GTs.caseV, GT.caseV, GTail.caseV, and_true]
+    refine Or.inr ?_
+    intro items h; rw [scanCL] at h; cases h; simp
 
 /-- side conditions under which the document determines the output (the generator of
 `checks/c02.py` produces exactly such templates) — informal list kept next to the statement:
